@@ -45,10 +45,14 @@ type script struct {
 	udp    bool
 	tcp    bool
 	chunk  int // when > 0 the resolver's TCP connection returns at most this many bytes per Read
+	// dup, when set, makes the upstream follow its reply to the query it answers first with a second,
+	// different message (this behaviour) carrying the same ID, before it answers the other query: a query is
+	// answered by the first matching response, anything later for that ID belongs to a finished transaction
+	dup string
 }
 
 func (s script) String() string {
-	return fmt.Sprintf("u4=%s;u6=%s;t4=%s;t6=%s;order=%s;ttl4=%d;ttl6=%d;udp=%v;tcp=%v;chunk=%d", s.u4, s.u6, s.t4, s.t6, s.order, s.ttl4, s.ttl6, s.udp, s.tcp, s.chunk)
+	return fmt.Sprintf("u4=%s;u6=%s;t4=%s;t6=%s;order=%s;ttl4=%d;ttl6=%d;udp=%v;tcp=%v;chunk=%d%s", s.u4, s.u6, s.t4, s.t6, s.order, s.ttl4, s.ttl6, s.udp, s.tcp, s.chunk, map[bool]string{true: ";dup=" + s.dup}[s.dup != ""])
 }
 
 func parseScript(p string) script {
@@ -76,6 +80,8 @@ func parseScript(p string) script {
 			s.tcp = v == "true"
 		case "chunk":
 			fmt.Sscan(v, &s.chunk)
+		case "dup":
+			s.dup = v
 		}
 	}
 	return s
@@ -301,6 +307,9 @@ func (e *env) serve(g *vsched.Group) func() {
 					src = os2
 				}
 				vudp.UDP_WriteToUDPAddrPort(src, reply, p.from)
+				if sc.dup != "" && id == first {
+					vudp.UDP_WriteToUDPAddrPort(us, buildReply(p.q, sc.dup, 1, ttl), p.from)
+				}
 			}
 			held = nil
 			heldFor = -1
@@ -349,6 +358,15 @@ func (e *env) serve(g *vsched.Group) func() {
 				copy(out[2:], reply)
 				if _, err := c.Write(out); err != nil {
 					break
+				}
+				if sc.dup != "" && (id == 4) == (sc.order != "64") {
+					d := buildReply(q, sc.dup, 2, ttl)
+					out := make([]byte, 2+len(d))
+					binary.BigEndian.PutUint16(out, uint16(len(d)))
+					copy(out[2:], d)
+					if _, err := c.Write(out); err != nil {
+						break
+					}
 				}
 			}
 			c.Close()
@@ -773,6 +791,18 @@ func main() {
 				add(s)
 				s.t4, s.t6 = "valid", tb
 				add(s)
+			}
+		}
+		// a second, different message for the query that was answered first (same ID), before the other answer
+		for _, d := range []string{"servfail", "notresp", "ra0", "nxdomain"} {
+			for _, order := range []string{"46", "64"} {
+				s := base
+				s.order, s.dup = order, d
+				add(s)
+				if udp && tcp {
+					s.u4, s.u6 = "silence", "truncated" // the same on the TCP path
+					add(s)
+				}
 			}
 		}
 		if tcp {
